@@ -55,6 +55,43 @@ def latin_hypercube_one_point_per_slab(S):
         S.forall(f"axis-{i}-points-stay-inside-the-box", Tensor(pts), lambda q, i=i: z3.And(lo[i].t <= zreal(pts.at([q[0], (i,)])), zreal(pts.at([q[0], (i,)])) < hi[i].t))
 
 
+@scenario("C18", [LHS + "._create_lhs_in_bounding_box"], configs=["2d"])
+def lhs_proposals_cover_the_box(S):
+    """C18 consumer clause 'Latin-hypercube proposals cover the whole domain': on every axis, every coordinate y of the
+    bounding box [lo, hi) -- hence of every domain point, by the enclosure part of C18 -- shares its slab of width
+    (hi-lo)/n with the proposal of row inv(slab(y)); no slab of the box is left without a proposal."""
+    n = S.int("n", 1)
+    dom = abstract_domain(S, "D", S.new(RN, "x", 2))
+    smp = S.new(LHS, dom.obj, n)
+    lo = [S.real(f"lo{i}") for i in range(2)]
+    hi = [S.real(f"hi{i}") for i in range(2)]
+    for i in range(2):
+        S.assume(lo[i].t < hi[i].t)
+    from tpv.tlib import tensor_from_nested
+
+    box = Tensor(tensor_from_nested([lo[0], hi[0], lo[1], hi[1]]))
+    pts = S.method(smp, "_create_lhs_in_bounding_box", box, "cpu").val
+    perms = S.ctx.ghost.get("perms", [])
+    ok = len(perms) == 2 and pts.rank == 2 and pts.shape[1].concrete() == 2
+    S.ensure("n-rows-two-columns-one-permutation-per-axis", ok)
+    if not ok:
+        return
+    S.ensure("n-rows", pts.shape[0].size_term() == zint(n))
+    nr = z3.ToReal(zint(n))
+    for i in range(2):
+        f, inv, nn = perms[i]
+        w = (hi[i].t - lo[i].t) / nr
+        y = z3.Real(f"y{i}")
+        j = z3.Int(f"slab{i}")
+        r = inv(j)
+        x = zreal(pts.at([(r,), (i,)]))
+        hyps = [lo[i].t <= y, y < hi[i].t, lo[i].t + z3.ToReal(j) * w <= y, y < lo[i].t + (z3.ToReal(j) + 1) * w,
+                # contract of randperm (A3): inv is the inverse permutation
+                z3.Implies(z3.And(j >= 0, j < nn), z3.And(r >= 0, r < nn, f(r) == j))]
+        S.ensure(f"axis-{i}-slab-index-of-a-box-coordinate-is-in-range", z3.And(j >= 0, j < zint(n)), hyps, kind="lemma")
+        S.ensure(f"axis-{i}-every-box-coordinate-shares-its-slab-with-a-proposal", z3.And(r >= 0, r < zint(n), lo[i].t + z3.ToReal(j) * w <= x, x < lo[i].t + (z3.ToReal(j) + 1) * w, x - y < w, y - x < w), hyps + [j >= 0, j < zint(n)])
+
+
 @scenario("C11", ["torchphysics.problem.domains.domain1D.interval.Interval.sample_random_uniform"], configs=["const"])
 def interval_sampler_is_an_affine_image_of_the_uniform_variate(S):
     lo, hi = S.real("lo"), S.real("hi")
